@@ -9,7 +9,8 @@ FIRST_TRY = {'C01': True, 'C02': True, 'C03': False, 'C04': True, 'C05': False, 
              'C10': False, 'C11': True, 'C12': False, 'C13': True, 'C14': True, 'C15': True, 'C16': True, 'C17': True, 'C18': False,
              'C19': False, 'C20': True,
              'C01b': True, 'C03b': False, 'C04b': True, 'C05b': True, 'C06b': True, 'C07b': True, 'C09b': True, 'C10b': False,
-             'C13b': True, 'C16b': False, 'C19b': False, 'C20b': True}
+             'C13b': True, 'C16b': False, 'C19b': False, 'C20b': True,
+             'C02b': True, 'C08b': True, 'C11b': False, 'C12b': True, 'C14b': True, 'C15b': True, 'C17b': True, 'C18b': True}
 STRENGTHEN = {
     'C03': 'the C03 simulator tied the configured keep_alive_time to hold/3; it is now an independent configuration dimension {60,1,7,600}',
     'C05': 'histories now also end sessions by version-error NOTIFICATION, bad marker, early UPDATE, manual stop/start and hold expiry',
@@ -21,6 +22,7 @@ STRENGTHEN = {
     'C03b': 'the first KEEPALIVE may now arrive some time after the OPEN (ka_delay in {small, H/3, H/2, 2H/3, H-eps}); before, OPEN and first KEEPALIVE always came at the same instant',
     'C10b': 'the hostile sequence can now be delivered in the 2nd or 3rd session of the same agent (earlier sessions ended by peer close / bad marker / Cease / silence) and NOTIFICATION bodies include (2,1); the change was caught by C02 from the start',
     'C16b': 'OPTIONS was added to the method dimension of the matrix (an automatic empty 200 reply is tolerated, any effect is not)',
+    'C11b': 'a corpus of ~30 well-formed UPDATE bodies (one per family / route type, reference-encoded) was added and every octet position is set to each of 60 boundary values (all 256 in the thorough tier), plus Hypothesis 2-4 position mutations; before, only 5 values per position of the unit-test vectors were tried, which never produced an over-long next-hop / prefix length with enough octets behind it',
     'C19b': 'attribute sets that are supersets of one another (set 0 + MED, + COMMUNITIES) were added, so a re-announcement that only drops an attribute occurs',
 }
 
@@ -44,7 +46,7 @@ def main():
                      FIRST_TRY.get(pid), res[-1] if res else ''))
     with open(os.path.join(HERE, 'seeded', 'INDEX.md'), 'w') as f:
         f.write('# Seeded changes (written by fresh sub-agents that saw only the property text)\n\n'
-                'Round 1: one change per property (C01..C20). Round 2 (ids ending in b): a second, different change for twelve\n'
+                'Round 1: one change per property (C01..C20). Round 2 (ids ending in b): a second, different change for all twenty\n'
                 'properties. Each directory holds patch.diff, the agent\'s demo.py, meta.json (incl. what the verifier ran) and\n'
                 'result.txt; `tools/try_seed.sh <id>` re-runs the confirmation on scratch copies of /repo.\n\n'
                 '| id | change | needs | caught on first run | final check result |\n|---|---|---|---|---|\n')
